@@ -112,6 +112,9 @@ class Source:
                     if isinstance(n.value, ast.Call) and ast.unparse(n.value.func) == "attr.ib":
                         for k in n.value.keywords:
                             if k.arg == "default": d = k.value; has = True
+                            elif k.arg == "factory":
+                                # factory=f  ==  a fresh f() per instance
+                                d = ast.copy_location(ast.Call(func=k.value, args=[], keywords=[]), k.value); ast.fix_missing_locations(d); has = True
                             elif k.arg == "validator": v = k.value
                             elif k.arg == "converter": c = k.value
                             elif k.arg in ("eq", "repr", "hash", "order", "kw_only", "metadata"): pass
